@@ -12,7 +12,9 @@
 (*     structural things (integer width, array arity);                       *)
 (*   - everything is linear in the size of the value / input: no [nth] in    *)
 (*     loops, [++] only with a left operand that is the encoding of ONE      *)
-(*     item, no conversion of data-dependent numbers to [nat];               *)
+(*     item, no number read from the input is ever converted to [nat]        *)
+(*     (the specification takes [N.of_nat (length l)] once per list; the     *)
+(*     fast variants count in [N] directly);                                 *)
 (*   - [enc]/[dec] are the specification and are not tail recursive (their   *)
 (*     recursion depth is linear in the longest list); the stack-safe        *)
 (*     [enc_fast]/[dec_fast] near the end of the file are the ones to        *)
